@@ -214,3 +214,33 @@ Proof. exact snapshot_counter_drifts_refuted. Qed.
 (* the completion path of the current source decrements the live counter (translator/headroom.py) *)
 Theorem C14_source_inflight_decrements_live_counter : NW.Gen.Headroom.inflight_decrements_live_counter = true.
 Proof. reflexivity. Qed.
+
+(* ---------- interleaved semantics (Model/Conc.v): every schedule of suspended requests, disconnects, time-outs ---------- *)
+From Coq Require Import List NArith.
+From NW Require Import Model.Conc Proofs.ConcDefs Proofs.ConcEv Proofs.ConcInv Proofs.ConcSmall Proofs.ConcSource Gen.ConcFlags.
+Import ListNotations.
+Local Open Scope N_scope.
+
+Theorem C14_conc_subscription_limit :
+  forall (cf : ccfg) (es : list ev) (u : user),
+    idx_early cf = true -> len (idx (cg (cstate_after cf es)) u) <= c_max_subs cf.
+Proof. exact conc_subscription_limit. Qed.
+
+Theorem C14_conc_subscription_limit_late_index_refuted :
+  exists (cf : ccfg) (es : list ev) (u : user),
+      idx_early cf = false /\ c_max_subs cf < len (idx (cg (cstate_after cf es)) u).
+Proof. exact conc_subscription_limit_late_index_refuted. Qed.
+
+Theorem C14_conc_member_limit :
+  forall (cf : ccfg) (es : list ev) (o : oid),
+    len (members (objs (cg (cstate_after cf es)) o)) <= c_max_clients cf.
+Proof. exact conc_member_limit. Qed.
+
+Theorem C14_source_subscription_limit :
+  forall (fe fp : bool) (ms mc : N) (es : list ev) (u : user),
+    len (idx (cg (cstate_after (src_cfg fe fp ms mc) es)) u) <= ms.
+Proof. exact source_subscription_limit. Qed.
+
+Theorem C14_source_segment_layout :
+  forallb snd conc_source_shape = true.
+Proof. exact source_segment_layout. Qed.
